@@ -519,7 +519,7 @@ def enum_value_sv(ci: ClassInfo, name) -> SV:
 
 # ------------------------------------------------------------------------------------------------ interpreter
 PURE_BUILTINS = {"len", "isinstance", "int", "str", "bool", "float", "min", "max", "abs", "old", "implies", "iff",
-                 "forall", "exists", "forall_obj", "exists_obj", "type", "hasattr", "getattr", "IPv4Address", "ite", "bit", "fresh", "seq", "epoch", "unchanged", "n_events", "plen", "in_net", "valid_mask", "dict_key", "dict_val", "event_kind", "event_arg", "ev", "same_dict", "same_dict_except"}
+                 "forall", "exists", "forall_obj", "exists_obj", "type", "hasattr", "getattr", "IPv4Address", "ite", "bit", "fresh", "seq", "epoch", "unchanged", "n_events", "plen", "in_net", "valid_mask", "dict_key", "dict_val", "event_kind", "event_arg", "ev", "same_dict", "same_dict_except", "psum"}
 
 
 class Interp:
@@ -1192,7 +1192,18 @@ class Interp:
         elif isinstance(op, ast.Sub):
             r = x - y
         elif isinstance(op, ast.Mult):
-            r = x * y
+            xs, ys = smt.simp(x), smt.simp(y)
+            if z3.is_rational_value(xs) or z3.is_int_value(xs) or z3.is_rational_value(ys) or z3.is_int_value(ys):
+                r = x * y
+            else:
+                # product of two symbolic numbers: kept as an uninterpreted commutative function so that the arithmetic
+                # stays linear (the proofs here only ever need the same product on both sides); listed as assumption
+                a1, a2 = (xs, ys) if xs.get_id() <= ys.get_id() else (ys, xs)
+                if isr:
+                    r = z3.Function("rmul", smt.R, smt.R, smt.R)(a1, a2)
+                else:
+                    r = z3.Function("imul", smt.I, smt.I, smt.I)(a1, a2)
+                st.log.append("products of two symbolic numbers are uninterpreted (commutative) terms")
         elif isinstance(op, ast.Div):
             st.oblige("safety", "divzero", y != 0, line)
             r = (x if isr else z3.ToReal(x)) / (y if isr else z3.ToReal(y))
